@@ -63,16 +63,16 @@ def reportable : Err → Bool
 /-! ### straight-line instructions -/
 
 section
-variable {rec : VmCtx → Chunk → State → RunRes} {venv : Vm.Env} {vm : VmCtx} {c : Chunk}
+variable {venv : Vm.Env} {vm : VmCtx} {c : Chunk}
   {eenv : Tera.Env}
 
 theorem run_loadConst {pc : Nat} {v : Value} {hasSpan : Bool} (h : EntryAt c pc (.loadConst v, hasSpan))
     (st : State) :
-    Run rec venv vm c pc st [pc] (pc + 1) (st.push v (pc, pc)) := by
+    Run venv vm c pc st [pc] (pc + 1) (st.push v (pc, pc)) := by
   obtain ⟨vi, sps, hv, hc, _⟩ := h
   simp only [Pipeline.vinstr, Option.some.injEq] at hv
   subst hv
-  exact Run.one hc (by simp only [step])
+  exact Run.one hc (by intro rec; simp only [step])
 
 theorem spanOk_own {pc : Nat} {i : CInstr} (h : EntryAt c pc (sp i)) : SpanOk c (pc, pc) := by
   obtain ⟨vi, sps, _, hc, hs⟩ := h
@@ -80,13 +80,13 @@ theorem spanOk_own {pc : Nat} {i : CInstr} (h : EntryAt c pc (sp i)) : SpanOk c 
 
 theorem run_loadName {pc : Nat} {n : String} (h : EntryAt c pc (sp (.loadName n))) (st : State)
     (hn : (n == "__tera_context") = false) :
-    Run rec venv vm c pc st [pc] (pc + 1) (st.push (st.scope.getValue n) (pc, pc)) := by
+    Run venv vm c pc st [pc] (pc + 1) (st.push (st.scope.getValue n) (pc, pc)) := by
   obtain ⟨vi, sps, hv, hc, _⟩ := h
   simp only [sp, Pipeline.vinstr, Option.some.injEq] at hv
   subst hv
   have hn' : ¬ n = MAGICAL_DUMP_VAR := by
     intro h; subst h; simp [MAGICAL_DUMP_VAR] at hn
-  exact Run.one hc (by simp only [step, lookupName, hn', if_false])
+  exact Run.one hc (by intro rec; simp only [step, lookupName, hn', if_false])
 
 /-- `LoadAttr` / `LoadAttrOpt` against the evaluator's `getAttr` arm -/
 theorem attr_sim {pc : Nat} {n : String} {opt : Bool}
@@ -94,11 +94,11 @@ theorem attr_sim {pc : Nat} {n : String} {opt : Bool}
     (ht : reportTargetOk venv vm c = true) (st : State) (a : Value) (ra : SpanRange)
     (hra : SpanOk c ra) :
     if opt && (a.isUndef || a.isNone) then
-      Run rec venv vm c pc (st.push a ra) [pc] (pc + 1) (st.push .undef (pc, pc))
+      Run venv vm c pc (st.push a ra) [pc] (pc + 1) (st.push .undef (pc, pc))
     else if a.isUndef then
-      Fails rec venv vm c pc (st.push a ra) [pc] .undefinedField
+      Fails venv vm c pc (st.push a ra) [pc] .undefinedField
     else
-      Run rec venv vm c pc (st.push a ra) [pc] (pc + 1)
+      Run venv vm c pc (st.push a ra) [pc] (pc + 1)
         (st.push ((a.getAttr n.toList).getD .undef) (pc, pc)) := by
   obtain ⟨vi, sps, hv, hc, _⟩ := h
   have hv' : vi = .loadAttr n opt := by
@@ -109,37 +109,39 @@ theorem attr_sim {pc : Nat} {n : String} {opt : Bool}
     simp only [Bool.true_and, Bool.false_and, Bool.or_true, Bool.or_false, Bool.true_or,
       Bool.false_or, if_true, if_false, Bool.false_eq_true] <;>
     first
-      | exact Run.one hc (by simp [step, stepLoadAttr, State.push, hu, hn])
+      | exact Run.one hc (by intro rec; simp [step, stepLoadAttr, State.push, hu, hn])
       | exact Fails.here hc (by
+          intro rec
           simp only [step, stepLoadAttr, State.push, hu, hn, Bool.true_and, Bool.false_and,
             Bool.or_true, Bool.or_false, Bool.true_or, Bool.false_or, if_true, if_false,
             Bool.false_eq_true]
           exact renderingError_eq ht hra _)
 
 theorem run_not {pc : Nat} (h : EntryAt c pc (sp .not)) (st : State) (a : Value) (ra : SpanRange) :
-    Run rec venv vm c pc (st.push a ra) [pc] (pc + 1) (st.push (.bool (!a.isTruthy)) ra) := by
+    Run venv vm c pc (st.push a ra) [pc] (pc + 1) (st.push (.bool (!a.isTruthy)) ra) := by
   obtain ⟨vi, sps, hv, hc, _⟩ := h
   simp only [sp, Pipeline.vinstr, Option.some.injEq] at hv
   subst hv
-  exact Run.one hc (by simp only [step, stepNot, State.push])
+  exact Run.one hc (by intro rec; simp only [step, stepNot, State.push])
 
 /-- `Negative` against `liftNum (negate F v)` -/
 theorem negative_sim {pc : Nat} (h : EntryAt c pc (sp .negative)) (hE : EnvRel venv eenv)
     (ht : reportTargetOk venv vm c = true) (st : State) (a : Value) (ra : SpanRange)
     (hra : SpanOk c ra) :
     match liftNum (negate eenv.F a) with
-    | .ok v => Run rec venv vm c pc (st.push a ra) [pc] (pc + 1) (st.push v ra)
-    | .error err => ∃ re, Fails rec venv vm c pc (st.push a ra) [pc] re ∧ errMatch err re = true := by
+    | .ok v => Run venv vm c pc (st.push a ra) [pc] (pc + 1) (st.push v ra)
+    | .error err => ∃ re, Fails venv vm c pc (st.push a ra) [pc] re ∧ errMatch err re = true := by
   obtain ⟨vi, sps, hv, hc, _⟩ := h
   simp only [sp, Pipeline.vinstr, Option.some.injEq] at hv
   subst hv
   cases hr : negate eenv.F a with
   | ok v =>
     simp only [liftNum]
-    exact Run.one hc (by simp only [step, stepNegative, State.push, hE.F, hr])
+    exact Run.one hc (by intro rec; simp only [step, stepNegative, State.push, hE.F, hr])
   | error e =>
     simp only [liftNum]
     refine ⟨.math e, Fails.here hc ?_, by simp [errMatch]⟩
+    intro rec
     simp only [step, stepNegative, State.push, hE.F, hr]
     exact renderingError_eq ht hra _
 
@@ -152,8 +154,8 @@ theorem math_sim {pc : Nat} {mop : MathOp} {sps : List Span}
     (st : State) (a : Value) (ra : SpanRange) (b : Value) (rb : SpanRange)
     (hra : SpanOk c ra) (hrb : SpanOk c rb) :
     match mathBinop f a b with
-    | .ok v => ∃ rg, Run rec venv vm c pc ((st.push a ra).push b rb) [pc] (pc + 1) (st.push v rg) ∧ SpanOk c rg
-    | .error err => ∃ re, Fails rec venv vm c pc ((st.push a ra).push b rb) [pc] re ∧ errMatch err re = true := by
+    | .ok v => ∃ rg, Run venv vm c pc ((st.push a ra).push b rb) [pc] (pc + 1) (st.push v rg) ∧ SpanOk c rg
+    | .error err => ∃ re, Fails venv vm c pc ((st.push a ra).push b rb) [pc] re ∧ errMatch err re = true := by
   unfold mathBinop
   by_cases ha : a.isNumber = true
   · by_cases hb : b.isNumber = true
@@ -161,11 +163,12 @@ theorem math_sim {pc : Nat} {mop : MathOp} {sps : List Span}
       cases hr : f a b with
       | ok v =>
         simp only [liftNum]
-        exact ⟨_, Run.one hc (by simp only [step, stepMath, State.push, ha, hb, hf, hr,
+        exact ⟨_, Run.one hc (by intro rec; simp only [step, stepMath, State.push, ha, hb, hf, hr,
           Bool.not_true, Bool.false_eq_true, if_false]), hra.combine hrb⟩
       | error e =>
         simp only [liftNum]
         refine ⟨.math e, Fails.here hc ?_, by simp [errMatch]⟩
+        intro rec
         simp only [step, stepMath, State.push, ha, hb, hf, hr, Bool.not_true, Bool.false_eq_true, if_false]
         cases e
         all_goals first
@@ -173,11 +176,13 @@ theorem math_sim {pc : Nat} {mop : MathOp} {sps : List Span}
           | exact renderingError_eq ht hrb _
     · simp only [ha, hb, Bool.not_true, Bool.not_false, Bool.false_eq_true, if_false, if_true]
       refine ⟨.math .notNumber, Fails.here hc ?_, by simp [errMatch]⟩
+      intro rec
       simp only [step, stepMath, State.push, ha, hb, Bool.not_true, Bool.not_false, Bool.false_eq_true,
         if_false, if_true]
       exact renderingError_eq ht hrb _
   · simp only [ha, Bool.not_false, if_true]
     refine ⟨.math .notNumber, Fails.here hc ?_, by simp [errMatch]⟩
+    intro rec
     simp only [step, stepMath, State.push, ha, Bool.not_false, if_true]
     exact renderingError_eq ht hra _
 
@@ -188,14 +193,15 @@ theorem cmp_sim {pc : Nat} {cop : CmpOp} {sps : List Span}
     (st : State) (a : Value) (ra : SpanRange) (b : Value) (rb : SpanRange)
     (hra : SpanOk c ra) (hrb : SpanOk c rb) :
     match orderingBinop test a b with
-    | .ok v => ∃ rg, Run rec venv vm c pc ((st.push a ra).push b rb) [pc] (pc + 1) (st.push v rg) ∧ SpanOk c rg
-    | .error err => ∃ re, Fails rec venv vm c pc ((st.push a ra).push b rb) [pc] re ∧ errMatch err re = true := by
+    | .ok v => ∃ rg, Run venv vm c pc ((st.push a ra).push b rb) [pc] (pc + 1) (st.push v rg) ∧ SpanOk c rg
+    | .error err => ∃ re, Fails venv vm c pc ((st.push a ra).push b rb) [pc] re ∧ errMatch err re = true := by
   unfold orderingBinop
   cases hr : partialCmp a b with
   | some o =>
-    exact ⟨_, Run.one hc (by simp only [step, stepCmp, State.push, hr, hf]), hra.combine hrb⟩
+    exact ⟨_, Run.one hc (by intro rec; simp only [step, stepCmp, State.push, hr, hf]), hra.combine hrb⟩
   | none =>
     refine ⟨.notComparable, Fails.here hc ?_, by simp [errMatch]⟩
+    intro rec
     simp only [step, stepCmp, State.push, hr]
     exact renderingError_eq ht (hra.combine hrb) _
 
@@ -228,15 +234,15 @@ theorem binop_sim {pc : Nat} {op : BinaryOperator} (hop : strictOp op = true)
     (st : State) (a : Value) (ra : SpanRange) (b : Value) (rb : SpanRange)
     (hra : SpanOk c ra) (hrb : SpanOk c rb) :
     match binop eenv op a b with
-    | .ok v => ∃ rg, Run rec venv vm c pc ((st.push a ra).push b rb) [pc] (pc + 1) (st.push v rg) ∧ SpanOk c rg
-    | .error err => ∃ re, Fails rec venv vm c pc ((st.push a ra).push b rb) [pc] re ∧ errMatch err re = true := by
+    | .ok v => ∃ rg, Run venv vm c pc ((st.push a ra).push b rb) [pc] (pc + 1) (st.push v rg) ∧ SpanOk c rg
+    | .error err => ∃ re, Fails venv vm c pc ((st.push a ra).push b rb) [pc] re ∧ errMatch err re = true := by
   have hown := spanOk_own h
   obtain ⟨vi, sps, hv, hc, _⟩ := h
   cases op <;> simp only [strictOp, Bool.false_eq_true] at hop <;>
     simp only [sp, Pipeline.vinstr, Option.some.injEq] at hv <;> subst hv
   case StrConcat =>
     rw [binop_strConcat, ← hE.fmt]
-    exact ⟨combineSpans ra rb, Run.one hc (by simp only [step, stepStrConcat_eq]), hra.combine hrb⟩
+    exact ⟨combineSpans ra rb, Run.one hc (by intro rec; simp only [step, stepStrConcat_eq]), hra.combine hrb⟩
   all_goals simp only [binop]
   case Mul => exact math_sim hc ht _ (by rw [hE.F]; rfl) st a ra b rb hra hrb
   case Div => exact math_sim hc ht _ (by rw [hE.F]; rfl) st a ra b rb hra hrb
@@ -250,15 +256,17 @@ theorem binop_sim {pc : Nat} {op : BinaryOperator} (hop : strictOp op = true)
       cases hr : add eenv.F a b with
       | ok v =>
         simp only [liftNum]
-        exact ⟨_, Run.one hc (by simp only [step, stepPlus, State.push, hab, hE.F, hr, if_true]),
+        exact ⟨_, Run.one hc (by intro rec; simp only [step, stepPlus, State.push, hab, hE.F, hr, if_true]),
           hra.combine hrb⟩
       | error e =>
         simp only [liftNum]
         refine ⟨.math e, Fails.here hc ?_, by simp [errMatch]⟩
+        intro rec
         simp only [step, stepPlus, State.push, hab, hE.F, hr, if_true]
         exact renderingError_eq ht (hra.combine hrb) _
     · rw [if_neg hab]
       refine ⟨.math .notNumber, Fails.here hc ?_, by simp [errMatch]⟩
+      intro rec
       simp only [step, stepPlus, State.push, hab, Bool.false_eq_true, if_false]
       exact renderingError_eq ht (hra.combine hrb) _
   case LessThan => exact cmp_sim hc ht _ (fun _ => rfl) st a ra b rb hra hrb
@@ -266,75 +274,81 @@ theorem binop_sim {pc : Nat} {op : BinaryOperator} (hop : strictOp op = true)
   case LessThanOrEqual => exact cmp_sim hc ht _ (fun _ => rfl) st a ra b rb hra hrb
   case GreaterThanOrEqual => exact cmp_sim hc ht _ (fun _ => rfl) st a ra b rb hra hrb
   case Equal =>
-    exact ⟨_, Run.one hc (by simp only [step, stepEqual, State.push, Bool.false_eq_true, if_false]),
+    exact ⟨_, Run.one hc (by intro rec; simp only [step, stepEqual, State.push, Bool.false_eq_true, if_false]),
       hra.combine hrb⟩
   case NotEqual =>
-    exact ⟨_, Run.one hc (by simp only [step, stepEqual, State.push, if_true]), hra.combine hrb⟩
+    exact ⟨_, Run.one hc (by intro rec; simp only [step, stepEqual, State.push, if_true]), hra.combine hrb⟩
   case In =>
     cases hr : Value.contains b a with
     | ok r =>
-      exact ⟨_, Run.one hc (by simp only [step, stepIn, State.push, hr]), hown⟩
+      exact ⟨_, Run.one hc (by intro rec; simp only [step, stepIn, State.push, hr]), hown⟩
     | error e =>
       refine ⟨.inContainer, Fails.here hc ?_, by simp [errMatch]⟩
+      intro rec
       simp only [step, stepIn, State.push, hr]
       exact renderingError_eq ht hrb _
 
 /-! ### jumps -/
 
 theorem run_jump {pc t : Nat} (h : EntryAt c pc (ns (.jump t))) (st : State) :
-    Run rec venv vm c pc st [pc] t st := by
+    Run venv vm c pc st [pc] t st := by
   obtain ⟨vi, sps, hv, hc, _⟩ := h
   simp only [ns, Pipeline.vinstr, Option.some.injEq] at hv
   subst hv
-  exact Run.one hc (by simp only [step])
+  exact Run.one hc (by intro rec; simp only [step])
 
 theorem run_popJumpIfFalse {pc t : Nat} (h : EntryAt c pc (ns (.popJumpIfFalse t))) (st : State)
     (v : Value) (r : SpanRange) :
-    Run rec venv vm c pc (st.push v r) [pc] (if v.isTruthy then pc + 1 else t) st := by
+    Run venv vm c pc (st.push v r) [pc] (if v.isTruthy then pc + 1 else t) st := by
   obtain ⟨vi, sps, hv, hc, _⟩ := h
   simp only [ns, Pipeline.vinstr, Option.some.injEq] at hv
   subst hv
   refine Run.one hc ?_
+  intro rec
   cases hv : v.isTruthy <;> simp [step, stepPopJumpIfFalse, State.push, hv]
 
 /-- `JumpIfFalseOrPop` (`and`): a truthy top is popped -/
 theorem run_jumpIfFalseOrPop_true {pc t : Nat} (h : EntryAt c pc (ns (.jumpIfFalseOrPop t)))
     (st : State) (v : Value) (r : SpanRange) (hv : v.isTruthy = true) :
-    Run rec venv vm c pc (st.push v r) [pc] (pc + 1) st := by
+    Run venv vm c pc (st.push v r) [pc] (pc + 1) st := by
   obtain ⟨vi, sps, hvi, hc, _⟩ := h
   simp only [ns, Pipeline.vinstr, Option.some.injEq] at hvi
   subst hvi
   refine Run.one hc ?_
+  intro rec
   simp [step, stepJumpOrPop, State.push, hv]
 
 /-- `JumpIfFalseOrPop` (`and`): a falsy top stays and the VM jumps -/
 theorem run_jumpIfFalseOrPop_false {pc t : Nat} (h : EntryAt c pc (ns (.jumpIfFalseOrPop t)))
     (st : State) (v : Value) (r : SpanRange) (hv : v.isTruthy = false) :
-    Run rec venv vm c pc (st.push v r) [pc] t (st.push v r) := by
+    Run venv vm c pc (st.push v r) [pc] t (st.push v r) := by
   obtain ⟨vi, sps, hvi, hc, _⟩ := h
   simp only [ns, Pipeline.vinstr, Option.some.injEq] at hvi
   subst hvi
   refine Run.one hc ?_
+  intro rec
   simp [step, stepJumpOrPop, State.push, hv]
 
 /-- `JumpIfTrueOrPop` (`or`): a truthy top stays and the VM jumps -/
 theorem run_jumpIfTrueOrPop_true {pc t : Nat} (h : EntryAt c pc (ns (.jumpIfTrueOrPop t)))
     (st : State) (v : Value) (r : SpanRange) (hv : v.isTruthy = true) :
-    Run rec venv vm c pc (st.push v r) [pc] t (st.push v r) := by
+    Run venv vm c pc (st.push v r) [pc] t (st.push v r) := by
   obtain ⟨vi, sps, hvi, hc, _⟩ := h
   simp only [ns, Pipeline.vinstr, Option.some.injEq] at hvi
   subst hvi
   refine Run.one hc ?_
+  intro rec
   simp [step, stepJumpOrPop, State.push, hv]
 
 /-- `JumpIfTrueOrPop` (`or`): a falsy top is popped -/
 theorem run_jumpIfTrueOrPop_false {pc t : Nat} (h : EntryAt c pc (ns (.jumpIfTrueOrPop t)))
     (st : State) (v : Value) (r : SpanRange) (hv : v.isTruthy = false) :
-    Run rec venv vm c pc (st.push v r) [pc] (pc + 1) st := by
+    Run venv vm c pc (st.push v r) [pc] (pc + 1) st := by
   obtain ⟨vi, sps, hvi, hc, _⟩ := h
   simp only [ns, Pipeline.vinstr, Option.some.injEq] at hvi
   subst hvi
   refine Run.one hc ?_
+  intro rec
   simp [step, stepJumpOrPop, State.push, hv]
 
 end
